@@ -31,9 +31,12 @@ TRUSTED = [
     'flattening, rows of ncols items, element-wise ==), not verified',
     'Stdlib QArith (no axioms) for the rational statistics',
 ]
-ASSUMPTIONS = ['a float32 / float16 REFERENCE layer is only combined with layer values exactly representable in that precision (NumPy compares '
+ASSUMPTIONS = ['rank / popularity compute `ref - 1` in the reference layer\'s integer dtype (NumPy scalar arithmetic wraps: an unsigned 0 becomes '
+               'the dtype\'s maximum -> index out of range -> NaN); the harness hands the model the correspondingly wrapped integer. References '
+               'outside 1..n are outside the property and have no theorem; ',
+               'a float32 / float16 REFERENCE layer is only combined with layer values exactly representable in that precision (NumPy compares '
                'the numpy reference scalar with the Python-float layer value in the reference\'s precision — a promotion artefact, not checked); '
-               'integer magnitudes <= 2**49 so that sums of 8 layers stay exact in float64; unsigned reference layers only with values >= 1; '
+               'integer magnitudes <= 2**49 so that sums of 8 layers stay exact in float64; '
                'NumPy-backed xarray.Dataset of 2-D same-shaped layers with at least one column; '
                'reference layers for rank/popularity have an integer dtype (a float reference raises TypeError in list indexing)',
                'the model is the behaviour after fixes/C17-nditer-c-order-single-layer.diff (C-order iteration, single layer allowed)']
@@ -361,6 +364,14 @@ def model_line(case):
     if fn in ('lesser_frequency', 'equal_frequency', 'greater_frequency'):
         return '%s %s %s' % (fn.split('_')[0], xvio.grid(ref, s), lay), s
     if fn in ('rank', 'popularity'):
+        # the code computes `ref - 1` on the NumPy scalar of the reference layer, i.e. in that layer's integer dtype: it wraps
+        # around at the dtype's bounds (uint8 0 - 1 = 255, int8 -128 - 1 = 127).  The model's reference is a mathematical integer,
+        # so it is handed the value whose predecessor is the wrapped result.
+        dt = np.dtype(case['layers'][case['ref_var']]['dtype'])
+        if dt.kind in 'iu':
+            info = np.iinfo(dt)
+            span = int(info.max) - int(info.min) + 1
+            ref = [[float((int(v) - 1 - int(info.min)) % span + int(info.min) + 1) for v in row] for row in ref]
         return '%s %s %s' % (fn, xvio.grid(ref, 1), lay), s
     if fn == 'lowest_position':
         return 'lowest %s' % lay, s
